@@ -399,7 +399,7 @@ class Interp:
         if k in ("call", "mcall"):
             return self.call(n, env)
         if k == "cast":
-            return self.ev(n["e"], env)
+            return self.cast(self.ev(n["e"], env), self.C.S(n.get("ty")) or "")
         if k == "loop":
             guard = 0
             while True:
@@ -438,6 +438,33 @@ class Interp:
         if k == "array":
             return VecV([self.ev(x, env) for x in n["elems"]])
         raise Unsupported("node kind %s" % k)
+
+    INT_BITS = {"i8": (8, True), "i16": (16, True), "i32": (32, True), "i64": (64, True), "i128": (128, True), "isize": (64, True),
+                "u8": (8, False), "u16": (16, False), "u32": (32, False), "u64": (64, False), "u128": (128, False), "usize": (64, False)}
+
+    def cast(self, v, to):
+        """`expr as T`: integer casts wrap like Rust's (two's complement truncation); other casts keep the value."""
+        v0 = deref(v)
+        if to in self.INT_BITS:
+            bits, signed = self.INT_BITS[to]
+
+            def wrap(x):
+                x &= (1 << bits) - 1
+                return x - (1 << bits) if signed and x >= (1 << (bits - 1)) else x
+            if isinstance(v0, bool):
+                return int(v0)
+            if isinstance(v0, int):
+                return wrap(v0)
+            if isinstance(v0, Sym) and v0.ty in self.INT_BITS and isinstance(v0.rank, int):
+                w = wrap(v0.rank)
+                if w == v0.rank and v0.ty == to:
+                    return v0
+                return Sym("%s as %s" % (v0.name, to), rank=w, ty=to)
+            if isinstance(v0, Sym) and v0.ty in ("f64", "f32"):
+                raise Unsupported("float-to-int cast")
+        if to in ("f64", "f32") and isinstance(v0, Sym) and v0.ty in self.INT_BITS:
+            raise Unsupported("int-to-float cast")
+        return v
 
     def call_path(self, node, args):
         """Call a function referenced by a path node (`.map(Type::new)`, `.filter(EdgeInfo::is_mandatory)`, `.map(Some)`)."""
@@ -539,6 +566,10 @@ class Interp:
                     return False
                 v = deref(o.fields[0]).variant
                 return {"<": v == "Less", "<=": v in ("Less", "Equal"), ">": v == "Greater", ">=": v in ("Greater", "Equal")}[op]
+        if op in ("==", "!=") and isinstance(l, VecV) and isinstance(r, VecV):
+            # slice / Vec / Arc<[T]> equality: same length and elementwise `==` of the element type (its own PartialEq)
+            res = len(l.items) == len(r.items) and all(self.binop("==", x, y, n) for x, y in zip(l.items, r.items))
+            return res if op == "==" else not res
         if op in ("==", "!="):
             res = veq(l, r)
             return res if op == "==" else not res
